@@ -34,6 +34,9 @@ GOALS = [
     [[">=", ["f", "o1"], "2"]],
     [["p", "o3"], ["=", ["g"], "0.5"], ["<=", ["+", ["f", "o1"], ["g"]], "10"]],
     [["q", "o2", "o2"], [">", ["h", "o1", "o1"], ["-", ["f", "k"], "1"]]],
+    # the constant on the left of a comparison; a comparison of two expressions; a constant-only side
+    [["<=", "2.5", ["f", "o1"]], [">", "10", ["+", ["f", "o1"], ["g"]]]],
+    [["<", ["*", "2", ["g"]], ["-", ["f", "o1"], ["g"]]], [">=", ["-", "1", "0.5"], ["g"]], ["p", "o1"]],
 ]
 OBJECT_SETS = [dict(G.OBJECTS), {"o1": "t1", "o2": "t1", "o3": "t3", "u1": "t2", "u2": "t2", "o4": "t3"},
                # objects of the root type declared before / between objects of proper types (a bare name in a typed list
